@@ -37,12 +37,22 @@ def make_world():
             r["cache_fill"] = [not getattr(self.market, c).empty for c in CACHES]
             return r
 
+    class RepricedCtx(Ctx):
+        """price_row() honours a what-if repricing inside the bar (model['repriced']); the flag is part of the snapshot / canonical state"""
+
+        def price_row(self):
+            row = super().price_row()
+            if getattr(self, "model", None) and self.model.get("repriced"):
+                row = row.copy()
+                row["WETH"] = row["WETH"] * Decimal("0.9")
+            return row
+
     def build():
         m = aave.make_market(frames)
         ad = Adapter(m, frames)
-        ctx = Ctx("aave", prices, USD, [ad], [(aave.WETH, 10), (aave.USDC, 20000), (aave.DAI, 5000), (aave.USDT, 8000)], prices.index)
+        ctx = RepricedCtx("aave", prices, USD, [ad], [(aave.WETH, 10), (aave.USDC, 20000), (aave.DAI, 5000), (aave.USDT, 8000)], prices.index)
         ctx.begin_bar(0)
-        ctx.model = {"writes": 0, "last_read": False}
+        ctx.model = {"writes": 0, "last_read": False, "repriced": False}
         ctx.canon_model = True
         return ctx
 
@@ -68,7 +78,7 @@ def seeded_build(world, seed_name):
             out = kit.apply(ctx, ops[lab])
             if not out.ok:
                 raise RuntimeError(f"seed {seed_name}: {lab} rejected: {out.error}")
-        ctx.model = {"writes": 0, "last_read": False}
+        ctx.model = {"writes": 0, "last_read": False, "repriced": False}
         return ctx
     return build
 
@@ -89,12 +99,16 @@ def _apy(rate) -> Fraction:
         return Fraction((1 + Decimal(rate) / SECONDS) ** SECONDS - 1)
 
 
-READS_ALL = ["supplies", "borrows", "supplies_value", "borrows_value", "collateral_value", "health_factor", "balance", "all"]
-READS_QUICK = ["supplies", "health_factor", "all"]
+READS_ALL = ["supplies", "borrows", "supplies_value", "borrows_value", "collateral_value", "health_factor", "balance", "all", "max_withdraw", "max_borrow"]
+READS_QUICK = ["supplies", "health_factor", "all", "max_withdraw"]
 READS = list(READS_QUICK)
 
 
 def do_read(m, which):
+    if which == "max_withdraw":  # read-only helper queries go through the cached views too and must leave them as they are
+        return [m.get_max_withdraw_amount(t) for t in list(m._supplies)]
+    if which == "max_borrow":
+        return [m.get_max_borrow_amount(t) for t in list(m._supplies)] if m._supplies else None
     if which == "balance":
         return m.get_market_balance()
     if which == "all":
@@ -158,7 +172,17 @@ def alphabet(world, max_writes):
                 out.append(Op(f"w.repay[{t.name},None]", write(lambda t=t: m.repay(t)), True, "repay"))
                 out.append(Op(f"w.repay[{t.name},part,WETH]", write(lambda t=t: m.repay(t, m.get_borrow(t).amount / 4, True, W)), True, "repay"))
         if ctx.bar + 1 < len(ctx.index):
+            def reprice():
+                # a what-if inside the bar: the status of the SAME timestamp is set again with another price vector (legal use of the API)
+                from demeter import MarketStatus
+
+                ctx.model["repriced"] = not ctx.model["repriced"]
+                m.set_market_status(MarketStatus(ctx.index[ctx.bar], None), ctx.price_row())
+            out.append(Op("w.reprice", write(reprice), True, "reprice"))
+
             def adv():
+                if ctx.model["repriced"]:  # back to the bar's real prices before the bar ends
+                    reprice()
                 # the strategy's after_bar hook runs between update() (liquidation) and the next bar's status refresh: views read there
                 # must be fresh too, so they are compared right after the real update() as well
                 ctx.end_bar()
